@@ -81,9 +81,18 @@ def _gen(rng):
     return GE.gen_expr(rng, cfg), cfg
 
 
+def _load_corpus():
+    """corpus/Cxx/*.json (witnesses and examples; falls back to the inline list)"""
+    d = C.VERIF / "corpus" / PROP
+    files = sorted(d.glob("*.json")) if d.is_dir() else []
+    if not files:
+        return [dict(c) for c in CORPUS]
+    return [json.loads(f.read_text()) for f in files]
+
+
 def cases(rng: random.Random, tier: str):
-    out = [dict(c) for c in CORPUS]
-    n = 1200 if tier == "quick" else 10000
+    out = _load_corpus()
+    n = 9000 if tier == "quick" else 60000
     for _ in range(n):
         e, cfg = _gen(rng)
         o = _ordering_for(rng, e, cfg.n_names)
@@ -91,7 +100,7 @@ def cases(rng: random.Random, tier: str):
             out.append({"kind": "idem", "e": e, "ordering": o})
         else:
             out.append({"kind": "perm", "e": e, "e2": GE.present_shuffle(rng, e), "ordering": o})
-    nb = 4 if tier == "quick" else 12
+    nb = 8 if tier == "quick" else 16
     seeds = [0, 1, 2] if tier == "quick" else list(range(16))
     for _ in range(nb):
         batch = []
